@@ -23,7 +23,96 @@ CELLS = ["interval", "triangle", "quadrilateral", "tetrahedron", "hexahedron"]
 POISONS = [float("nan"), float("inf"), 1e300]
 
 
+def memcheck_case(case):
+    """Definedness monitor: the storage of every disabled coefficient is left UNINITIALISED and the kernel runs under valgrind
+    memcheck; if anything written to A (and then to the output file) depends on it, memcheck reports it."""
+    import os
+    import re
+    import shutil
+
+    from vf import astkernel as AK
+    from vf import corpus
+    from vf import execs as E
+    from vf import harness as H
+    from vf import oracle as O
+
+    recipe = case["recipe"]
+    rng = np.random.default_rng(case.get("seed", [0]))
+    res = {"evaluations": 0, "counters": {}, "cover": {}, "nontrivial": [], "violations": []}
+    cnt = res["counters"]
+
+    def count(k, n=1):
+        cnt[k] = cnt.get(k, 0) + n
+
+    b = corpus.build(recipe)
+    try:
+        header, source = E.generate_source(b.forms, {})
+    except Exception as e:
+        return {"verdict": INCONCLUSIVE, "why": f"ffcx did not generate: {type(e).__name__}: {str(e)[:100]}"}
+    wd = H.scratch_dir("mc")
+    try:
+        drv = E.Driver(os.path.join(wd, "plain"), header, source, variant="plain")
+        if drv.build_rc != 0:
+            return {"verdict": INCONCLUSIVE, "why": "driver build failed", "log": drv.build_log[-800:]}
+        names = AK.form_integral_names(source)
+        tables = H.parse_form_tables(source)
+        en = {m.group(1): [int(v) for v in m.group(2).split(",")] for m in re.finditer(r"bool enabled_coefficients_(\w+)\[\d+\] = \{([^}]*)\};", source)}
+        recs, meta = [], []
+        for oi, ((kind, sym), uf) in enumerate(zip(drv.symbols, b.forms)):
+            orc = O.FormOracle(uf)
+            offs, ids = tables[sym]
+            pos = [orc.original_coefficients.index(c) for c in orc.reduced_coefficients]
+            for t, itype in enumerate(H.ITYPES):
+                for k in range(offs[t], offs[t + 1]):
+                    kn = names[sym][k]
+                    flags = en.get(kn)
+                    if not flags or all(flags):
+                        continue
+                    interior = itype == "interior_facet"
+                    data = H.make_data(rng, orc.coord_element, orc.original_coefficients, orc.constants, interior, False, "affine")
+                    w, slots = H.pack_w(orc.original_coefficients, pos, data, interior, np.float64)
+                    un = [(b0, b0 + n) for (kk, s_, b0, n) in slots if not flags[kk]]
+                    ext = H.contract_extents(orc, itype)
+                    edim, nent = orc.entity_info(itype)
+                    ents = (0, min(1, nent - 1))
+                    if interior and O.facet_celltype(orc.cellname, ents[0]) != O.facet_celltype(orc.cellname, ents[1]):
+                        ents = (0, 0)
+                    recs.append({"obj": oi, "k": k, "scalar": "float64", "A0": np.zeros(ext["A"]), "w": w, "c": H.pack_c(orc.constants, data, np.float64), "x": H.pack_x(data, interior, np.float64),
+                                 "ent": None if itype == "cell" else list(ents if interior else ents[:1]), "perm": [0, 0] if interior else None, "uninit": un})
+                    meta.append((itype, ids[k], kn, flags, un))
+        if not recs:
+            return {"verdict": INCONCLUSIVE, "why": "no integral with a disabled coefficient"}
+        rc, err, outs = drv.run(recs[: case.get("max_kernels", 6)], timeout=900, valgrind=True)
+        res["evaluations"] = len(recs[: case.get("max_kernels", 6)])
+        count("memcheck_kernels", res["evaluations"])
+        if rc is None:
+            return {"verdict": INCONCLUSIVE, "why": "valgrind timeout"}
+        kind = E.classify_sanitizer_report(err or "")
+        if rc != 0 or kind:
+            # locate the offending kernel
+            first = None
+            for r, m in zip(recs, meta):
+                rc1, err1, _ = drv.run([r], timeout=600, valgrind=True, tag="one")
+                if rc1 != 0 or E.classify_sanitizer_report(err1 or ""):
+                    first = (m, err1)
+                    break
+            m, err1 = first if first else (meta[0], err)
+            res["violations"].append({"mechanism": "enabled-flag-false-but-read", "what": f"{recipe}: memcheck: output of {m[0]}/{m[1]} ({m[2]}) depends on the uninitialised storage of disabled coefficients "
+                                      f"(enabled={m[3]}, uninitialised w ranges {m[4]}): {E.classify_sanitizer_report(err1 or '')}", "replay": {"case": case, "report": (err1 or "")[-1500:]}})
+        else:
+            count("memcheck_clean", res["evaluations"])
+            for m in meta[: res["evaluations"]]:
+                res["nontrivial"].append(case_hash([recipe, m[0], m[1], "memcheck"]))
+            res["sample"] = {"recipe": recipe, "kernel": meta[0][2], "enabled": meta[0][3], "uninitialised_w_ranges": meta[0][4], "memcheck_errors": 0}
+    finally:
+        shutil.rmtree(wd, ignore_errors=True)
+    res["verdict"] = VIOLATED if res["violations"] else HELD
+    return res
+
+
 def run_case(case):
+    if case.get("memcheck"):
+        return memcheck_case(case)
     from vf import corpus
     from vf import harness as H
     from vf import oracle as O
@@ -146,6 +235,15 @@ def cases_for(tier, s):
                                                                "arity": 1 if modes[i % 5] == "derivative" else (i // 4) % 3,
                                                                "use_dS": i % 3 != 0, "mode": modes[i % 5]}},
                   "options": opts, "seed": [s, 500, i]})
+    # definedness monitor under valgrind (a few in quick, many in thorough)
+    nm = 4 if tier == "quick" else 60
+    for i in range(nm):
+        cell = CELLS[(i + 1) % 5]
+        if cell == "hexahedron":
+            cell = "triangle"
+        R.append({"memcheck": True, "recipe": {"b": "packing", "cell": cell, "p": {"seed": [s, 55, i], "ncoef": 4 + (i % 4), "nconst": i % 3, "arity": i % 3 if i % 3 else 1, "use_dS": i % 2 == 0, "mode": modes[i % 5] if modes[i % 5] != "derivative" else "subsets"}},
+                  "seed": [s, 550, i], "max_kernels": 4 if tier == "quick" else 8})
+    R.append({"memcheck": True, "recipe": {"b": "all_types", "cell": "triangle"}, "seed": [s, 551, 0], "max_kernels": 6})
     for cell in ("triangle", "tetrahedron", "quadrilateral"):
         R.append({"recipe": {"b": "jacobian_drop", "cell": cell}, "seed": [s, 501, 0]})
         R.append({"recipe": {"b": "all_types", "cell": cell}, "seed": [s, 501, 1]})
@@ -162,7 +260,9 @@ def main(tier, replay=None):
         "created in shuffled order, whose dx/ds/dx(1)/dS integrals use different subsets, and where coefficients drop out through "
         "derivative/replace/zero factors, and scalar constants that only occur under a derivative (eliminated by preprocessing but still packed); w/c packed from descriptor fields only and compared with the oracle on the original objects' values; "
         "every integral with a false enabled_coefficients flag is re-run with NaN/Inf/1e300 in that coefficient's storage and must be bitwise "
-        "identical; distinct non-trivial = compared kernel calls with magnitude>1e-6 plus poisoned integrals that ran",
+        "identical; additionally (4 modules in quick, 60 in thorough) the generated C is linked with the generic driver at -O0 and run under valgrind memcheck with "
+        "those slots left UNINITIALISED (definedness tracking: any dependence of the written A on them is reported); "
+        "distinct non-trivial = compared kernel calls with magnitude>1e-6 plus poisoned / memchecked integrals that ran",
         ["UFL/basix trusted", "the converse (enabled => really read) is not part of the property and not checked",
          "bitwise equality under NaN poisoning detects reads that reach A; a read whose value is discarded before reaching A is not observable (and harmless)"],
     )
@@ -176,6 +276,7 @@ def main(tier, replay=None):
         run.add(r)
     run.require("compared_ok_nontrivial", 60 if not replay else 1)
     run.require("poison_bitwise_equal", 20 if not replay else 0)
+    run.require("memcheck_clean", 4 if not replay else 0)
     return run.finish()
 
 
